@@ -2,7 +2,7 @@
 From Coq Require Import List NArith Arith Bool Lia.
 Import ListNotations.
 From Mos Require Import model.SymGraph model.Analysis model.Rename spec.NavSpec spec.RenameSpec
-  proofs.SymGraphProofs proofs.NavProofs.
+  proofs.SymGraphProofs proofs.NavProofs proofs.GreedyProofs.
 
 (* ---------- rename is a relabelling ---------- *)
 Lemma rename_relabelled : forall g p c new, relabelled g (rename g p c new) p c new.
@@ -227,7 +227,8 @@ Lemma rename_symbol_spans : forall fuel g slice nx d new g' edits,
   map ed_span edits = map dl_span (filter (fun dl => negb (is_super_slice slice dl)) (definition_and_usages d)).
 Proof.
   intros fuel g slice nx d new g' edits H. unfold rename_symbol in H.
-  destruct (location d); [|discriminate]. destruct (usage_steps fuel g slice (usages d)); [|discriminate].
+  destruct (location d); [|discriminate]. destruct (negb (def_site_is_identifier slice d0)); [discriminate|].
+  destruct (usage_steps fuel g slice (usages d)); [|discriminate].
   inversion H; subst. rewrite map_map. reflexivity.
 Qed.
 
@@ -338,6 +339,7 @@ Theorem edit_text_guarded : forall fuel g slice nx d new g' edits,
 Proof.
   intros fuel g slice nx d new g' edits H K e Ie. unfold rename_symbol in H. unfold Known_import_alias in K.
   destruct (location d) as [loc|] eqn:Ld; [|discriminate].
+  destruct (negb (def_site_is_identifier slice loc)); [discriminate|].
   destruct (usage_steps fuel g slice (usages d)) as [steps|] eqn:US; [|discriminate].
   inversion H; subst g' edits; clear H. apply negb_false_iff in K. rewrite forallb_forall in K.
   apply in_map_iff in Ie as [dl [<- Idl]]. cbn. apply filter_In in Idl as [Idl NS].
@@ -436,3 +438,23 @@ Lemma functional_invariant :
 Proof.
   split; [exact functional_nil|]. split; [exact insert_functional|]. split; [exact export_functional|exact remove_functional].
 Qed.
+
+(* ---------- the greedy analysis seen from rename (known finding, class Known_greedy_untaken_definition) ---------- *)
+(* foo: nop / { .if 0 { foo: nop } / lda foo } *)
+Definition gr_outer := mkSpan 0 0 0 0 3.
+Definition gr_dead := mkSpan 0 3 0 3 3.
+Definition gr_occ := mkSpan 0 5 4 5 7.
+Definition gr_zz : ident := [122; 122]%N.
+Definition gr_slice (_ : Span) : path := [gw_foo].
+Definition gr_analysed_events : list Event :=
+  [EvDefine 1 (mkLoc 0 gr_outer); EvDefine 3 (mkLoc 2 gr_dead); EvUse gw_table 2 [gw_foo] gr_occ].
+Definition gr_build_events : list Event :=
+  [EvDefine 1 (mkLoc 0 gr_outer); EvUse (without gw_extra gw_table) 2 [gw_foo] gr_occ].
+
+Lemma greedy_rename_refuted :
+  exists a a_b g1 g2,
+    run_pass 5 [] gr_analysed_events = Some a /\ run_pass 5 [] gr_build_events = Some a_b /\
+    rename_handler 5 gw_table a gr_slice 0 0 0 gr_zz = RenEdits g1 [mkEdit gr_outer [gr_zz]] /\
+    rename_handler 5 (without gw_extra gw_table) a_b gr_slice 0 0 0 gr_zz =
+      RenEdits g2 [mkEdit gr_outer [gr_zz]; mkEdit gr_occ [gr_zz]].
+Proof. do 4 eexists. repeat split; vm_compute; reflexivity. Qed.
